@@ -5,6 +5,9 @@ pub mod c03;
 pub mod c04;
 pub mod c05;
 pub mod c06;
+pub mod c07;
+pub mod c09;
+pub mod c18;
 pub mod c12;
 pub mod c13;
 pub mod c14;
@@ -20,6 +23,9 @@ pub fn by_id(id: &str) -> Option<&'static dyn Prop> {
         "C04" => &c04::C04,
         "C05" => &c05::C05,
         "C06" => &c06::C06,
+        "C07" => &c07::C07,
+        "C09" => &c09::C09,
+        "C18" => &c18::C18,
         "C12" => &c12::C12,
         "C13" => &c13::C13,
         "C14" => &c14::C14,
